@@ -12,17 +12,18 @@ for d in "$@"; do
   [ -z "$place" ] && place=tests/seeded_demo.rs
   pkgdir=$(dirname $(dirname $place)); pkg=""
   case "$pkgdir" in .|"") pkg="-p deb822-lossless";; *) pkg="-p $(basename $pkgdir)";; esac
+  feat=$(head -5 $d/demo.rs | grep -oE -- '--features [A-Za-z0-9,_-]+' | head -1)
   mkdir -p $(dirname $WT/$place)
   # 1. demo on the original code
   cp $d/demo.rs $WT/$place
-  cargo test --offline $pkg --test seeded_demo >/tmp/vt-$name-orig.log 2>&1; orig=$?
+  cargo test --offline $pkg $feat --test seeded_demo >/tmp/vt-$name-orig.log 2>&1; orig=$?
   rm -f $WT/$place
   # 2. apply; existing suite
   git apply $d/patch.diff || { echo "$name: PATCH DOES NOT APPLY"; continue; }
   cargo test --workspace --no-fail-fast --offline >/tmp/vt-$name-suite.log 2>&1; suite=$?
   # 3. demo with the change
   cp $d/demo.rs $WT/$place
-  cargo test --offline $pkg --test seeded_demo >/tmp/vt-$name-mut.log 2>&1; mut=$?
+  cargo test --offline $pkg $feat --test seeded_demo >/tmp/vt-$name-mut.log 2>&1; mut=$?
   echo "$name: demo_on_original=$orig (want 0) suite_with_change=$suite (want 0) demo_with_change=$mut (want !=0)"
   echo "{\"demo_on_original_exit\": $orig, \"suite_with_change_exit\": $suite, \"demo_with_change_exit\": $mut, \"demo_path\": \"$place\"}" > $d/verified.json
 done
